@@ -44,3 +44,11 @@ def close(a, b):
         return abs(a - b) <= 1e-9 * max(1.0, abs(a), abs(b))
     except TypeError:
         return a == b
+
+
+def appended(old_list, new_list):
+    """the items appended to a list that is only ever appended to: new_list[len(old_list):] (None if new_list does not extend old_list)"""
+    k = len(old_list)
+    if len(new_list) < k or list(new_list[:k]) != list(old_list):
+        return None
+    return tuple(new_list[k:])
